@@ -16,7 +16,7 @@ SPEC = {
              'FORCEWIN/FORCEUNIX supplied by the user must change nothing; REALPATH on a PureWindowsPath must raise ValueError; '
              'PurePosixPath / PureWindowsPath matching must equal glob.globmatch with FORCEUNIX / FORCEWIN; no path twice unless '
              'NOUNIQUE. A case is one (tree, pattern, flag set); it is non-trivial when glob or rglob returned something.'),
-    'bounds': {'quick': {'trees_per_shard': 30, 'patterns_per_tree': 16}, 'thorough': {'trees': 'until the time budget', 'patterns_per_tree': 30}},
+    'bounds': {'quick': {'trees_per_shard': 100, 'patterns_per_tree': 16}, 'thorough': {'trees': 'until the time budget', 'patterns_per_tree': 30}},
     'floor': {'quick': 8000, 'thorough': 100000},
     'required_counters': ['glob_view_checks', 'rglob_view_checks', 'globmatch_view_checks', 'match_vs_rglob_checks', 'value_error_checks',
                           'pure_flavour_checks', 'uniqueness_checks'],
@@ -40,6 +40,17 @@ def pflags(fn):
 
 def norm_abs(root, rel):
     return os.path.normpath(os.path.join(root, T.norm_result(rel)))
+
+
+def first_assignment_shape(toks, fn, path, implicit):
+    """Mechanism predicate of KF-REALPATH-FIRST-ASSIGNMENT: two or more globstars in one regex (the implicit prefix counts)
+    and a symlinked directory on the way to the path."""
+    ps = R.PathSpec(globstar='GLOBSTAR' in fn or 'GLOBSTARLONG' in fn, globstarlong='GLOBSTARLONG' in fn)
+    n = sum(1 for sg in R.split_segments(toks)[1] if R.seg_is_gstar(sg, ps)) + (1 if implicit else 0)
+    if n < 2:
+        return False
+    parts = path.split('/')
+    return any(os.path.islink('/'.join(parts[:i])) for i in range(1, len(parts)))
 
 
 def check_pattern(ctx, tr, rng, k, j, forced=None):
@@ -155,7 +166,9 @@ def check_pattern(ctx, tr, rng, k, j, forced=None):
     # ---- match(p, REALPATH) <=> rglob ----------------------------------------------------------------
     segs = R.split_segments(toks)
     dotseg = any(R.literal_text(R.norm_seg(sg)) in ('.', '..') for sg in segs[1])
-    if isinstance(pats, str) and not kw and 'SCANDOTDIR' not in fn and not text.startswith('/') and not dotseg:
+    # a nullable segment pattern against no segment is a DON'T-CARE zone of pure matching (DESIGN.md 4.2)
+    nullable_seg = any(R.nullable(R.norm_seg(sg)) for sg in segs[1] if not R.seg_is_gstar(sg, R.PathSpec(globstar=True, globstarlong=True)))
+    if isinstance(pats, str) and not kw and 'SCANDOTDIR' not in fn and not text.startswith('/') and not dotseg and not nullable_seg:
         cwd = os.getcwd()
         try:
             os.chdir(root)
@@ -169,13 +182,17 @@ def check_pattern(ctx, tr, rng, k, j, forced=None):
                     m = f'raised {type(e).__name__}'
                 ctx.evals()
                 ctx.count('match_vs_rglob_checks')
-                inr = os.path.normpath(c) in rset or (icase and os.path.normpath(c).lower() in rlow)
+                inr = os.path.normpath(c) in rset
+                if icase and not inr and os.path.normpath(c).lower() in rlow:
+                    continue    # a case twin was yielded instead (the duplicate filter merges twins): not asserted
                 if m is not inr:
                     fid = None
                     if m is True and not inr and segs[2] and segs[1] and not os.path.isdir(c) and \
                             R.seg_is_gstar(segs[1][-1], R.PathSpec(globstar='GLOBSTAR' in fn, globstarlong='GLOBSTARLONG' in fn)):
                         # `**/` under REALPATH also accepts a non-directory (the divider matches the end of the text)
                         fid = 'KF-REALPATH-GLOBSTAR-SLASH-FILE'
+                    if fid is None and m is False and inr and first_assignment_shape(toks, fn, c, implicit=True):
+                        fid = 'KF-REALPATH-FIRST-ASSIGNMENT'
                     ctx.disagree('q.match(p, REALPATH) disagrees with membership in Path(\'.\').rglob(p)',
                                  dict(wit, q=c, match=m, in_rglob=inr), fid)
                     break
@@ -205,7 +222,7 @@ def check_pattern(ctx, tr, rng, k, j, forced=None):
 def run(ctx):
     quick = ctx.quick
     k = 0
-    limit = 30 if quick else 10 ** 9
+    limit = 100 if quick else 10 ** 9
     while k < limit and not ctx.out_of_time():
         k += 1
         rng = ctx.rng_for('t', ctx.shard, k)
